@@ -19,6 +19,8 @@ claimed["C02"] = ("an independent length-only walker written from the OpenFlow 1
 claimed["C03"] = ("reference writers transcribed from OpenFlow 1.3.5 and nicira-ext.h are fed the same constructor arguments as the library and the encodings compared byte for byte (one SMT query per element, all field values at once): all 44 match-field kinds with and without mask, matches, all 27 action kinds in every variant (64 nat range subsets, flag combinations, conntrack zone forms and nesting, 5 learn-spec kinds with n_bits 1..1023), instructions incl. prepend order, flow-mod (all commands), group-mod with buckets, packet-out, port-mod, set-config, multipart requests, Nicira and bundle vendor messages", "4 C03")
 claimed["C04"] = ("reference writers (OpenFlow 1.3.5 / nicira-ext.h layouts) produce the bytes of every switch-originated kind from symbolic field values - hello with version-bitmap elements, error, experimenter error, echo, barrier reply, features reply, get-config reply, packet-in (match + Ethernet frame + payload), flow-removed, port-status with port description, multipart replies desc / flow (match, instructions, actions) / aggregate / table / port / queue, tlv-table reply, bundle control reply - Parse is executed symbolically on them and the dynamic type and every exported field, list element and payload byte of the result is compared with what was written (SMT over all values; lists <= 2/3 elements)", "4 C04")
 claimed["C17"] = ("NewMatchField executed symbolically (math/big modelled as sign + 256-bit magnitude on the real struct layout, reflect from the concrete dynamic type) for uint32 -> 4-byte register, uint64 -> 8-byte metadata, int64 -> 8-byte tunnel id, []byte/HardwareAddr -> 6-byte Ethernet address with data at full width and window offset/width symbolic in [-2,130], shift flag both ways; *big.Int -> 16-byte xxreg / ct_label with 128-bit symbolic data over a list of concrete windows; unmasked forms; one SMT verdict per assertion: value placed at the window, mask exactly the window, no value bit outside the mask, sizes == field width, register form == NewRegMatchField bytes, every unrepresentable input (negative, too wide, window outside the field) is an error and never a panic or unbounded allocation, caller's []byte / *big.Int unmodified", "4 C17")
+claimed["C10"] = ("the reader (MessageStream.inbound) and one parser-worker iteration (MessageStream.parse) executed symbolically as sequential code on a directly constructed stream with a scripted net.Conn and FIFO-modelled channels: for every byte stream of 8..17/24 bytes that is a sequence of well-formed frames plus an optional incomplete frame (length fields symbolic, so frame boundaries are decided by the solver) and every partition into <= 3 reads (plus byte-at-a-time reads, a frame larger than two pool buffers, a local close), the buffers handed over are exactly the complete frames in order, nothing of an incomplete frame is handed over, the failure is published once; the worker delivers exactly the parsed frame once and returns the reset buffer afterwards; goroutine/channel topology checked on the SSA. Scheduler interleavings are NOT explored: composition rests on Go channel semantics (trusted)", "4 C10")
+claimed["C11"] = ("the writer (MessageStream.outbound) executed symbolically on 0..3 queued messages of symbolic content with a recording net.Conn: one Write per message, each the whole encoding, in submission order; SSA structure: exactly one writer goroutine and a single conn.Write call site inside it. Producer/writer interleavings are NOT explored: non-interleaving and per-producer order follow from a single writer draining one FIFO channel (Go channel semantics, trusted)", "4 C11")
 pending = {}
 allp = [json.loads(l)["id"] for l in open("/verif/properties.jsonl")]
 TRUST = "go/ssa lowering, gc compiler, Go runtime, SMT solvers (z3 4.8.12 decides; z3 5.1.0 and cvc5 1.0 cross-check sampled verdict queries), the environment stubs listed in each evidence file; nothing outside the per-harness bounds in DESIGN.md §4"
